@@ -168,6 +168,8 @@ fn base_strategy() -> impl Strategy<Value = (u16, u16, Vec<FieldSpec>)> {
     prop_oneof![
         3 => (prop_oneof![Just(mr::T_NS), Just(mr::T_CNAME), Just(mr::T_PTR), Just(mr::T_MB), Just(mr::T_MD), Just(mr::T_MF), Just(mr::T_MG), Just(mr::T_MR)], class(), name()).prop_map(|(t, c, n)| (t, c, vec![n])),
         2 => (class(), name(), name(), b(20)).prop_map(|(c, m, r, f)| (mr::T_SOA, c, vec![m, r, f])),
+        // the longest RDATA of the two-name types: both names at or near 255 octets (SOA: up to 530 octets)
+        1 => (class(), crate::gen::boundary_name(), crate::gen::boundary_name(), b(20), any::<bool>()).prop_map(|(c, m, r, f, soa)| if soa { (mr::T_SOA, c, vec![FieldSpec::Name(m, 0), FieldSpec::Name(r, 0), f]) } else { (mr::T_MINFO, c, vec![FieldSpec::Name(m, 0), FieldSpec::Name(r, 0)]) }),
         2 => (class(), name(), name()).prop_map(|(c, x, y)| (mr::T_MINFO, c, vec![x, y])),
         2 => (class(), b(2), name()).prop_map(|(c, p, n)| (mr::T_MX, c, vec![p, n])),
         // SRV: caseless in IN, octet-wise elsewhere
